@@ -336,6 +336,7 @@ def run(index, rep, tier):
                     rep.check("taxon_namespace" not in a, "R14.7", f.qualname, "size taken from the namespace: %s" % norm(c), fn_where(f, c), "%s: `%s` counts matrix entries" % (f.name, norm(c)),
                               "%s takes a size from `%s`: a namespace can hold taxa the matrix has no distances for (a pruned tree keeps its namespace; a CSV read into a shared namespace), so the (n-2) factors of the Q-matrix / branch lengths are computed for too large an n and the reconstructed edge lengths are wrong" % (f.qualname, norm(c)))
         rep.floor("R14.7", "len() calls in nj_tree / upgma_tree", 2, nsz)
+        rep.floor("R14.7", "temporary settings in from_csv", 1, save_restore_rule(rep, "R14.7", index.function(PDM + ".from_csv")))
 
     # ---- R14.5
     with rep.section("R14.5"):
